@@ -1,2 +1,314 @@
+(* Proofs for property C05: the mempool model (outpoint index) refines the index-free pool. *)
 From V.lib Require Import Base.
 From V.model Require Import MemPool MemPoolSpec.
+
+(* ---------------------------------------------------------------------------------------- *)
+(* decidability of `shares` (needed by the statement of conflicting_evicts) *)
+Global Instance shares_dec (a b : list Z) : Decision (shares a b).
+Proof.
+  refine (cast_if (decide (Exists (fun o => o ∈ b) a))).
+  - abstract (apply Exists_exists in e; destruct e as (o & Ha & Hb); exists o;
+              split; apply elem_of_list_In; assumption).
+  - abstract (intros (o & Ha & Hb); apply n, Exists_exists; exists o;
+              split; apply elem_of_list_In; assumption).
+Defined.
+
+(* ---------------------------------------------------------------------------------------- *)
+(* basic facts *)
+Definition norm (l : list Z) : option (list Z) := match l with [] => None | l => Some l end.
+
+Lemma norm_snoc l x : norm (l ++ [x]) = Some (l ++ [x]).
+Proof. destruct l; reflexivity. Qed.
+
+Lemma norm_Some l l' : norm l = Some l' -> l' = l /\ l <> [].
+Proof. destruct l; simpl; intros H; inversion H; subst; split; congruence. Qed.
+
+Lemma norm_None l : norm l = None -> l = [].
+Proof. destruct l; simpl; congruence. Qed.
+
+Lemma norm_ne l : l <> [] -> norm l = Some l.
+Proof. destruct l; simpl; congruence. Qed.
+
+Lemma zlen_eqb0 {A} (l : list A) : (zlen l =? 0) = match l with [] => true | _ => false end.
+Proof. destruct l; reflexivity. Qed.
+
+Lemma zlen_gtb0 {A} (l : list A) : (zlen l >? 0) = match l with [] => false | _ => true end.
+Proof. destruct l; reflexivity. Qed.
+
+Lemma mem_elem x l : mem x l = true <-> x ∈ l.
+Proof.
+  unfold mem. rewrite existsb_exists. split.
+  - intros (y & Hy & He). apply Z.eqb_eq in He. subst. apply elem_of_list_In. exact Hy.
+  - intros H. exists x. split; [apply elem_of_list_In; exact H | apply Z.eqb_refl].
+Qed.
+
+Lemma mem_false x l : mem x l = false <-> x ∉ l.
+Proof. rewrite <- mem_elem. destruct (mem x l); split; congruence. Qed.
+
+Lemma mem_app x l1 l2 : mem x (l1 ++ l2) = mem x l1 || mem x l2.
+Proof. apply existsb_app. Qed.
+
+Lemma mem_single x y : mem x [y] = (x =? y).
+Proof. unfold mem. simpl. apply orb_false_r. Qed.
+
+(* ---------------------------------------------------------------------------------------- *)
+(* append_if_not_contained *)
+Notation aic := append_if_not_contained.
+
+Lemma aic_cons acc a add t :
+  aic acc (a :: add) t = aic (if (a =? t) || mem a acc then acc else acc ++ [a]) add t.
+Proof. reflexivity. Qed.
+
+Lemma aic_app acc l1 l2 t : aic acc (l1 ++ l2) t = aic (aic acc l1 t) l2 t.
+Proof. unfold aic. apply fold_left_app. Qed.
+
+Lemma aic_self acc t : aic acc [t] t = acc.
+Proof. unfold aic. simpl. rewrite Z.eqb_refl. reflexivity. Qed.
+
+Lemma aic_nil acc t : aic acc [] t = acc.
+Proof. reflexivity. Qed.
+
+Lemma aic_spec add : forall acc t,
+  (NoDup acc -> NoDup (aic acc add t)) /\
+  (forall x, x ∈ aic acc add t <-> x ∈ acc \/ (x ∈ add /\ x <> t)).
+Proof.
+  induction add as [|a add IH]; intros acc t.
+  - simpl. split; [tauto|]. intros x. rewrite elem_of_nil. tauto.
+  - rewrite aic_cons.
+    destruct (IH (if (a =? t) || mem a acc then acc else acc ++ [a]) t) as [IHn IHe].
+    split.
+    + intros Hnd. apply IHn.
+      destruct (a =? t) eqn:Eat; simpl; [exact Hnd|].
+      destruct (mem a acc) eqn:Em; [exact Hnd|].
+      apply mem_false in Em. apply NoDup_app. split; [exact Hnd|]. split.
+      * intros y Hy Hy'. apply elem_of_list_singleton in Hy'. subst. contradiction.
+      * apply NoDup_singleton.
+    + intros x. rewrite IHe. rewrite elem_of_cons.
+      destruct (a =? t) eqn:Eat; simpl.
+      * apply Z.eqb_eq in Eat. subst a. split; [tauto|].
+        intros [H|[[H|H] Hne]]; [tauto|congruence|tauto].
+      * apply Z.eqb_neq in Eat.
+        destruct (mem a acc) eqn:Em.
+        -- apply mem_elem in Em. split; [tauto|].
+           intros [H|[[H|H] Hne]]; [tauto|subst; tauto|tauto].
+        -- rewrite elem_of_app, elem_of_list_singleton. split.
+           ++ intros [[H|H]|H]; [tauto|subst; tauto|tauto].
+           ++ intros [H|[[H|H] Hne]]; tauto.
+Qed.
+
+(* ---------------------------------------------------------------------------------------- *)
+(* spenders, held, remove_tx *)
+Lemma spenders_elem p o x : x ∈ spenders p o <-> exists b, (x, b) ∈ p /\ o ∈ b.
+Proof.
+  unfold spenders, pool. rewrite elem_of_list_fmap. split.
+  - intros ([x' b] & -> & H). apply elem_of_list_filter in H. simpl in H.
+    destruct H as [Hm Hp]. apply mem_elem in Hm. eauto.
+  - intros (b & Hp & Ho). exists (x, b). split; [reflexivity|].
+    apply elem_of_list_filter. simpl. split; [apply mem_elem; exact Ho | exact Hp].
+Qed.
+
+Lemma spenders_app p1 p2 o : spenders (p1 ++ p2) o = spenders p1 o ++ spenders p2 o.
+Proof. unfold spenders, pool. rewrite filter_app, map_app. reflexivity. Qed.
+
+Lemma spenders_single t d o : spenders [(t, d)] o = if mem o d then [t] else [].
+Proof.
+  unfold spenders, pool. rewrite filter_cons, filter_nil. simpl.
+  destruct (mem o d) eqn:E; destruct (decide _) as [H|H]; simpl; congruence.
+Qed.
+
+Lemma spenders_snoc p t d o :
+  spenders (p ++ [(t, d)]) o = spenders p o ++ (if mem o d then [t] else []).
+Proof. rewrite spenders_app, spenders_single. reflexivity. Qed.
+
+Lemma spenders_sub p o x : x ∈ spenders p o -> x ∈ map fst p.
+Proof.
+  rewrite spenders_elem. intros (b & Hp & _). apply elem_of_list_fmap. exists (x, b). auto.
+Qed.
+
+Lemma spenders_NoDup p o : NoDup (map fst p) -> NoDup (spenders p o).
+Proof.
+  unfold spenders, pool. induction p as [|e p IH]; intros Hnd.
+  - constructor.
+  - change (map fst (e :: p)) with (fst e :: map fst p) in Hnd.
+    apply NoDup_cons in Hnd. destruct Hnd as [Hni Hnd]. rewrite filter_cons.
+    destruct (decide _); [|auto].
+    change (NoDup (fst e :: map fst (filter (fun e0 : Z * list Z => mem o (snd e0) = true) p))).
+    apply NoDup_cons. split; [|auto].
+    intros Hin. apply Hni. apply elem_of_list_fmap in Hin. destruct Hin as (y & Hy & Hin).
+    apply elem_of_list_filter in Hin. apply elem_of_list_fmap. exists y. tauto.
+Qed.
+
+Lemma held_elem p t : held p t = true <-> t ∈ map fst p.
+Proof. unfold held. apply mem_elem. Qed.
+
+Lemma held_ex p t : held p t = true <-> exists b, (t, b) ∈ p.
+Proof.
+  rewrite held_elem, elem_of_list_fmap. split.
+  - intros ([t' b] & -> & H). eauto.
+  - intros (b & H). exists (t, b). auto.
+Qed.
+
+Lemma held_false p t : held p t = false <-> forall b, (t, b) ∉ p.
+Proof.
+  split.
+  - intros H b Hb. assert (held p t = true) by (apply held_ex; eauto). congruence.
+  - intros H. destruct (held p t) eqn:E; [|reflexivity].
+    apply held_ex in E. destruct E as (b & Hb). destruct (H b Hb).
+Qed.
+
+Lemma remove_tx_elem p t e : e ∈ remove_tx p t <-> e ∈ p /\ fst e <> t.
+Proof. unfold remove_tx, pool. rewrite elem_of_list_filter. tauto. Qed.
+
+Lemma map_fst_filter_ne (p : list (Z * list Z)) t :
+  map fst (filter (fun e => fst e ≠ t) p) = filter (fun x => x ≠ t) (map fst p).
+Proof.
+  induction p as [|e p IH]; [reflexivity|].
+  rewrite filter_cons. simpl. rewrite filter_cons.
+  destruct (decide (fst e ≠ t)); simpl; rewrite IH; reflexivity.
+Qed.
+
+Lemma filter_comm {A} (P Q : A -> Prop) `{!forall x, Decision (P x)} `{!forall x, Decision (Q x)}
+    (l : list A) : filter P (filter Q l) = filter Q (filter P l).
+Proof.
+  induction l as [|a l IH]; [reflexivity|].
+  rewrite (filter_cons Q), (filter_cons P).
+  destruct (decide (Q a)) as [q|q], (decide (P a)) as [p|p]; rewrite ?filter_cons;
+    repeat (destruct (decide _); try contradiction); rewrite IH; reflexivity.
+Qed.
+
+Lemma filter_idem {A} (P : A -> Prop) `{!forall x, Decision (P x)} (l : list A) :
+  filter P (filter P l) = filter P l.
+Proof.
+  induction l as [|a l IH]; [reflexivity|].
+  rewrite filter_cons. destruct (decide (P a)) as [p|p]; [|exact IH].
+  rewrite filter_cons. destruct (decide (P a)); [|contradiction]. rewrite IH. reflexivity.
+Qed.
+
+Lemma filter_all {A} (P : A -> Prop) `{!forall x, Decision (P x)} (l : list A) :
+  (forall x, x ∈ l -> P x) -> filter P l = l.
+Proof.
+  induction l as [|a l IH]; intros Hall; [reflexivity|].
+  rewrite filter_cons. destruct (decide (P a)) as [p|p].
+  - rewrite IH; [reflexivity|]. intros x Hx. apply Hall. apply elem_of_cons. auto.
+  - destruct p. apply Hall. apply elem_of_cons. auto.
+Qed.
+
+Lemma spenders_remove_tx p t o :
+  spenders (remove_tx p t) o = filter (fun x => x ≠ t) (spenders p o).
+Proof.
+  unfold spenders, remove_tx, pool. rewrite <- map_fst_filter_ne. f_equal. apply filter_comm.
+Qed.
+
+Lemma remove_tx_id p t : held p t = false -> remove_tx p t = p.
+Proof.
+  intros H. unfold remove_tx, pool. apply filter_all. intros [t' b] Hin. simpl. intros ->.
+  eapply held_false in H. exact (H Hin).
+Qed.
+
+Lemma remove_tx_NoDup p t : NoDup (map fst p) -> NoDup (map fst (remove_tx p t)).
+Proof. intros H. unfold remove_tx, pool. rewrite map_fst_filter_ne. apply NoDup_filter. exact H. Qed.
+
+(* ---------------------------------------------------------------------------------------- *)
+(* the refinement relation *)
+Definition idx_ok (ins : gmap Z (list Z)) (p : pool) : Prop :=
+  forall o, ins !! o = norm (spenders p o).
+
+(* held body of a txid according to the model's txs map (placeholders are not held) *)
+Definition hb (tx : gmap Z mtx) (t : Z) : option (list Z) :=
+  match tx !! t with Some m => norm (outpoints m) | None => None end.
+
+Record R (s : mempool) (p : pool) : Prop := mkR {
+  R_nodup : NoDup (map fst p);
+  R_txs : forall t b, (t, b) ∈ p <-> hb (txs s) t = Some b;
+  R_idx : idx_ok (inputs s) p }.
+
+Lemma R_init : R mp_init [].
+Proof.
+  split.
+  - constructor.
+  - intros t b. unfold hb. simpl. rewrite lookup_empty, elem_of_nil. split; [tauto|congruence].
+  - intros o. simpl. apply lookup_empty.
+Qed.
+
+Lemma R_same_view s s' p :
+  R s p -> (forall t, hb (txs s') t = hb (txs s) t) -> inputs s' = inputs s -> R s' p.
+Proof.
+  intros [Hnd Htx Hidx] Hv Hi. split; [exact Hnd| |rewrite Hi; exact Hidx].
+  intros t b. rewrite Hv. apply Htx.
+Qed.
+
+Lemma hb_insert tx t m t' :
+  hb (<[t := m]> tx) t' = if decide (t' = t) then norm (outpoints m) else hb tx t'.
+Proof.
+  unfold hb. destruct (decide (t' = t)) as [->|Hne].
+  - rewrite lookup_insert. reflexivity.
+  - rewrite lookup_insert_ne by congruence. reflexivity.
+Qed.
+
+Lemma hb_delete tx t t' :
+  hb (delete t tx) t' = if decide (t' = t) then None else hb tx t'.
+Proof.
+  unfold hb. destruct (decide (t' = t)) as [->|Hne].
+  - rewrite lookup_delete. reflexivity.
+  - rewrite lookup_delete_ne by congruence. reflexivity.
+Qed.
+
+Lemma R_held s p t : R s p -> held p t = match hb (txs s) t with Some _ => true | None => false end.
+Proof.
+  intros [Hnd Htx Hidx]. destruct (hb (txs s) t) as [b|] eqn:E.
+  - apply held_ex. exists b. apply Htx. exact E.
+  - apply held_false. intros b Hb. apply Htx in Hb. congruence.
+Qed.
+
+Lemma R_nonempty s p : R s p -> Forall (fun e => snd e <> []) p.
+Proof.
+  intros [Hnd Htx Hidx]. apply Forall_forall. intros [t b] Hin. simpl.
+  apply Htx in Hin. unfold hb in Hin. destruct (txs s !! t); [|congruence].
+  apply norm_Some in Hin. destruct Hin as [-> Hne]. exact Hne.
+Qed.
+
+(* ---------------------------------------------------------------------------------------- *)
+(* add_inputs *)
+Definition cfold (p : pool) (t : Z) (body c : list Z) : list Z :=
+  fold_left (fun acc o => aic acc (spenders p o) t) body c.
+
+Lemma aic_extra c l (b : bool) t : aic c (l ++ (if b then [t] else [])) t = aic c l t.
+Proof. destruct b; [rewrite aic_app, aic_self | rewrite app_nil_r]; reflexivity. Qed.
+
+Lemma add_inputs_spec p t : t ∉ map fst p -> forall body done ins c,
+  idx_ok ins (p ++ [(t, done)]) ->
+  idx_ok (fst (add_inputs ins c t body)) (p ++ [(t, done ++ body)]) /\
+  snd (add_inputs ins c t body) = cfold p t body c.
+Proof.
+  intros Hnh. induction body as [|o body IH]; intros done ins c Hok.
+  - simpl. rewrite app_nil_r. auto.
+  - simpl add_inputs. unfold cfold. simpl fold_left. fold (cfold p t body).
+    pose proof (Hok o) as Ho. rewrite spenders_snoc in Ho.
+    assert (Hmt : forall l0, mem t (spenders p o ++ l0) = mem t l0).
+    { intros l0. rewrite mem_app. replace (mem t (spenders p o)) with false; [reflexivity|].
+      symmetry. apply mem_false. intros H. apply Hnh. eapply spenders_sub; eauto. }
+    replace (done ++ o :: body) with ((done ++ [o]) ++ body)
+      by (rewrite <- app_assoc; reflexivity).
+    destruct (ins !! o) as [l|] eqn:El.
+    + symmetry in Ho. apply norm_Some in Ho. destruct Ho as [-> Hne].
+      rewrite aic_extra, Hmt. apply IH.
+      intros o'. rewrite spenders_snoc, mem_app, mem_single.
+      destruct (mem o done) eqn:Emd.
+      * rewrite mem_single, Z.eqb_refl. rewrite Hok, spenders_snoc.
+        destruct (o' =? o) eqn:E.
+        -- apply Z.eqb_eq in E. subst o'. rewrite Emd. reflexivity.
+        -- rewrite orb_false_r. reflexivity.
+      * simpl (mem t []). cbv iota. destruct (o' =? o) eqn:E.
+        -- apply Z.eqb_eq in E. subst o'. rewrite lookup_insert, orb_true_r, app_nil_r, norm_snoc.
+           reflexivity.
+        -- apply Z.eqb_neq in E. rewrite lookup_insert_ne by congruence.
+           rewrite orb_false_r, Hok, spenders_snoc. reflexivity.
+    + symmetry in Ho. apply norm_None in Ho. apply app_eq_nil in Ho. destruct Ho as [Hs Hx].
+      assert (Emd : mem o done = false) by (destruct (mem o done); congruence).
+      rewrite Hs, aic_nil. apply IH.
+      intros o'. rewrite spenders_snoc, mem_app, mem_single.
+      destruct (o' =? o) eqn:E.
+      * apply Z.eqb_eq in E. subst o'. rewrite lookup_insert, orb_true_r, Hs. reflexivity.
+      * apply Z.eqb_neq in E. rewrite lookup_insert_ne by congruence.
+        rewrite orb_false_r, Hok, spenders_snoc. reflexivity.
+Qed.
